@@ -108,7 +108,10 @@ def stepLine (s : St) (line : String) : St × String :=
     | none => (s, "bad-op")
   | ["dg", src, "app", h] =>
     match src.toNat?, parseHex h with
-    | some src, some b => doStep s (.dgram { src := src, kind := .nonStun b })
+    | some src, some b =>
+      -- raw bytes: the model's own demultiplexing rule decides; the harness never sends bytes that ARE a STUN message this way
+      if isStun b then (s, "stun-shaped-payload-not-supported-as-app-op")
+      else let r := receive (fun _ => { cls := .indication, txid := 0, attrs := [] }) s src b; (r.1, obs r.1 r.2)
     | _, _ => (s, "bad-op")
   | "dg" :: src :: cls :: meth :: tx :: mi :: uc :: role :: prio :: user :: rest =>
     let mapped : Option (Option Nat) := match rest with
